@@ -69,7 +69,9 @@ func (e *Engine) Prelude() string {
 (assert (forall ((A (Array Int Int)) (o Int) (B Bytes) (i Int)) (! (= (select (wr A o B) i) (ite (and (<= o i) (< i (+ o (blen B)))) (bat B (- i o)) (select A i))) :pattern ((select (wr A o B) i)))))
 (assert (forall ((A (Array Int Int)) (o Int) (B Bytes) (o2 Int) (l2 Int)) (! (=> (and (= o2 o) (= l2 (blen B))) (= (view (wr A o B) o2 l2) B)) :pattern ((view (wr A o B) o2 l2)))))
 (assert (forall ((A (Array Int Int)) (o Int) (B Bytes) (o2 Int) (l2 Int)) (! (=> (or (<= (+ o2 l2) o) (<= (+ o (blen B)) o2)) (= (view (wr A o B) o2 l2) (view A o2 l2))) :pattern ((view (wr A o B) o2 l2)))))
-(assert (forall ((A (Array Int Int)) (o Int) (B Bytes) (o2 Int) (l2 Int)) (! (=> (and (<= o o2) (<= 0 l2) (<= (+ o2 l2) (+ o (blen B)))) (= (view (wr A o B) o2 l2) (bsub B (- o2 o) (+ (- o2 o) l2)))) :pattern ((view (wr A o B) o2 l2)))))
+; the two halves of a concatenation written at o (restricted to this shape: a general "view of a written range" rule
+; re-triggers itself through bsub/view and makes the Sig_structure proofs diverge)
+(assert (forall ((A (Array Int Int)) (o Int) (a Bytes) (b Bytes) (o2 Int) (l2 Int)) (! (and (=> (and (= o2 o) (= l2 (blen a))) (= (view (wr A o (bcat a b)) o2 l2) a)) (=> (and (= o2 (+ o (blen a))) (= l2 (blen b))) (= (view (wr A o (bcat a b)) o2 l2) b))) :pattern ((view (wr A o (bcat a b)) o2 l2)))))
 (assert (forall ((a Bytes) (b Bytes)) (! (= (blen (bcat a b)) (+ (blen a) (blen b))) :pattern ((bcat a b)))))
 (assert (forall ((a Bytes) (b Bytes) (i Int)) (! (= (bat (bcat a b) i) (ite (< i (blen a)) (bat a i) (bat b (- i (blen a))))) :pattern ((bat (bcat a b) i)))))
 (assert (forall ((a Bytes)) (! (= (bcat bempty a) a) :pattern ((bcat bempty a)))))
@@ -235,7 +237,7 @@ func (e *Engine) Prelude() string {
 	var ok strings.Builder
 	ok.WriteString("(define-fun any_ok ((a Any) (alloc Int)) Bool (and (=> ((_ is A_other) a) (and (> (other_tid a) 100000) (< (other_h a) alloc)))")
 	for _, c := range cons {
-		inv := e.payloadInv(Term{fmt.Sprintf("(%s a)", c.Sel), c.Payload}, c.T, 1)
+		inv := e.payloadInv(Term{fmt.Sprintf("(%s a)", c.Sel), c.Payload}, c.T, 2)
 		if inv.S != "true" {
 			fmt.Fprintf(&ok, " (=> ((_ is %s) a) %s)", c.Con, inv.S)
 		}
